@@ -249,7 +249,7 @@ theorem sassign_accepts (info : CompId → CompInfo) (w : WM) (F : SlotState) (h
       | some r => rw [hy] at this; exact this
 
 theorem sremove_accepts (info : CompId → CompInfo) (w : WM) (F : SlotState) (hF : TempOnly F)
-    (e : Handle) (sid : Nat) (hmk : MasksOk w) (hloc : LocIn w e) :
+    (e : Handle) (sid : Nat) (hmk : MasksOk w) (hloc : w.isValid e = true → LocIn w e) :
     accepts (live w F)
       (if !w.isValid e then [] else
         match (w.locOf e).arch with
@@ -266,7 +266,7 @@ theorem sremove_accepts (info : CompId → CompInfo) (w : WM) (F : SlotState) (h
       simp only
       by_cases hs : (w.arch pi).shared.has sid = true
       · simp only [hs, Bool.not_true, Bool.false_eq_true, if_false]
-        have := sharedMove_accepts info w F hF e (fun s => s.remove sid) hmk hloc pi hla
+        have := sharedMove_accepts info w F hF e (fun s => s.remove sid) hmk (hloc hv) pi hla
         cases hx : w.getArch (w.arch pi).mask ((w.arch pi).shared.remove sid) with
         | mk g1 g2 =>
           rw [hx] at this
